@@ -11,6 +11,7 @@ import datetime as dt
 from hypothesis import strategies as st
 
 from harness import pyo
+from harness import zones as Z
 from harness.core import CaseInfo, Ctx, InvalidCase, Mismatch, Task, sub_seed
 from harness.gen import ints_biased, run_hypothesis
 
@@ -206,6 +207,31 @@ def _k_adt(c) -> CaseInfo:
     return CaseInfo(d.year in (1, 9999) or exp is None or (local_total // DAY) != (inst_ns // DAY), "adt")
 
 
+def _k_adt_inst(c) -> CaseInfo:
+    """Instant.from_aware_datetime for any fixed utcoffset the standard library allows (microsecond precision,
+    strictly within +/- 24 h): the instant is local time minus offset, exactly."""
+    from pyoda_time import Instant
+
+    o, us, off_us = c["o"], c["us"], c["off_us"]
+    if not (1 <= o <= MAX_ORD and 0 <= us < US_DAY and abs(off_us) < US_DAY):
+        raise InvalidCase
+    d = dt_from(o, us).replace(tzinfo=dt.timezone(dt.timedelta(microseconds=off_us)))
+    inst_ns = (o - ORD_EPOCH) * DAY + us * 1000 - off_us * 1000
+    try:
+        i = Instant.from_aware_datetime(d)
+    except RAISES:
+        need(not INST_MIN <= inst_ns <= INST_MAX, "Instant.from_aware_datetime/raised-in-range", f"{d.isoformat()}")
+        return CaseInfo(True, "adt_inst:out-of-range")
+    need(INST_MIN <= inst_ns <= INST_MAX, "Instant.from_aware_datetime/out-of-range-not-raised", f"{d.isoformat()}")
+    got = Z.ns(i)
+    need(got == inst_ns, "Instant.from_aware_datetime", f"{d.isoformat()}: {got} != {inst_ns} (delta {got - inst_ns})")
+    exp = expected_naive(inst_ns)
+    if exp is not None:
+        u = i.to_datetime_utc()
+        need(u == d and u.replace(tzinfo=None) == exp, "to_datetime_utc/value", f"{d.isoformat()} -> {u.isoformat()}")
+    return CaseInfo(off_us % 10**6 != 0 or abs(off_us) > 18 * 3600 * 10**6, "adt_inst")
+
+
 def _k_inst_to_dt(c) -> CaseInfo:
     from pyoda_time import Instant, Offset
 
@@ -326,6 +352,7 @@ def task_hyp(ctx: Ctx, shard: int, n: int) -> None:
         ctx.case("time", {"us": us, "rem": rem})
         ctx.case("ndt", {"o": o, "us": us, "cal": cid})
         ctx.case("adt", {"o": o, "us": us, "off": off})
+        ctx.case("adt_inst", {"o": o, "us": us, "off_us": off * 10**6 + (us % 2000003 - 1000001 if us % 3 else 0)})
         ctx.case("ld_to_date", {"cal": cid, "n": n_})
         ctx.case("ldt_to_naive", {"cal": cid, "n": n_, "nod": us * 1000 + rem % 1000})
         c = pyo.cal(cid)
